@@ -98,7 +98,7 @@ Definition cobs_eqb (a b : cobs) : bool :=
   match a, b with
   | OUnit, OUnit | OBlocked, OBlocked | ONoHandle, ONoHandle | OPanicSettled, OPanicSettled | ONil, ONil
   | OFinNil, OFinNil | OFinErr, OFinErr | OFinPanicV, OFinPanicV | OFinPanicSettled, OFinPanicSettled
-  | OFinBlocked, OFinBlocked => true
+  | OFinBlocked, OFinBlocked | OFinGoexit, OFinGoexit => true
   | OW x, OW y => cwout_eqb x y
   | OR x, OR y => crout_eqb x y
   | OHandle x, OHandle y => Nat.eqb x y
@@ -250,6 +250,8 @@ Definition spec_managed (pool : list key) (wr : bool) (b : list cbstep) (e : end
                | RetNil => expect (list_eqb cobs_eqb rest [OFinNil]) (spec_end h wr st2)
                | RetErr => expect (list_eqb cobs_eqb rest [OFinErr]) (spec_end h false st2)
                | PanicV => expect (list_eqb cobs_eqb rest [OFinPanicV]) (spec_end h false st2)
+               (* fn ended its goroutine: the call never returns, nothing of the transaction is published *)
+               | Goexit => expect (list_eqb cobs_eqb rest [OFinGoexit]) (spec_end h false st2)
                end
       end
   end.
@@ -276,6 +278,94 @@ Definition spec_ok (c : case) : bool :=
   let '(pool, l, observed) := c in
   spec_run pool l observed (mkSp [] None [] [] 0).
 
-Definition mismatches (cs : list case) : list nat := true_idx (map (fun c => negb (model_agrees c)) cs).
-Definition spec_violations (cs : list case) : list nat := true_idx (map (fun c => negb (spec_ok c)) cs).
-Definition fuel_outs (cs : list case) : list nat := [].   (* the model is structurally recursive: no fuel *)
+(* ---------- requests racing with commits (round 7) ----------
+   A request is a reader: whatever it answers (status, handler identity, the Allow header of a 405 /
+   automatic OPTIONS answer) comes from ONE load of the published tree, i.e. from one committed state.
+   The harness commits `pre`, then a writer goroutine commits the transactions of `cycle` (one operation
+   list each) again and again while reader goroutines send requests; every distinct (request, answer)
+   pair is one case.  The committed states are computed HERE from the operation lists the harness asked for. *)
+Definition optM : nat := 4.     (* the request method OPTIONS (never registered by the harness) *)
+Definition req_methods : list nat := [0; 1; 2; 3; 4].
+
+Inductive resp :=
+| RServed (tag : N)                              (* 200, answered by the handler registered with this tag *)
+| RNotFound                                      (* 404 *)
+| RNotAllowed (allow : list nat) (opt : bool)    (* 405, Allow = these methods (ascending index) [+ OPTIONS] *)
+| ROptions (allow : list nat)                    (* automatic OPTIONS answer: 200, Allow = these methods + OPTIONS *)
+| ROther.                                        (* anything else (also: a write of the writer goroutine failed) *)
+
+Definition resp_eqb (a b : resp) : bool :=
+  match a, b with
+  | RServed x, RServed y => N.eqb x y
+  | RNotFound, RNotFound => true
+  | RNotAllowed x o, RNotAllowed y q => list_eqb Nat.eqb x y && Bool.eqb o q
+  | ROptions x, ROptions y => list_eqb Nat.eqb x y
+  | _, _ => false
+  end.
+
+(* the committed states: after pre, and after each transaction of two laps of the cycle *)
+Fixpoint states_after (s : cstate) (txs : list (list cwop)) : list cstate :=
+  match txs with [] => [] | t :: txs' => cfold s t :: states_after (cfold s t) txs' end.
+Definition committed_states (pre : list cwop) (cycle : list (list cwop)) : list cstate :=
+  cfold [] pre :: states_after (cfold [] pre) (cycle ++ cycle).
+(* the cycle returns to the state it started from (so two laps list every committed state) *)
+Definition cycle_closed (pre : list cwop) (cycle : list (list cwop)) : bool :=
+  list_eqb kv_eqb (cfold (cfold [] pre) (List.concat cycle)) (cfold [] pre).
+
+(* model of ServeHTTP (fox.go:537-660) on ONE tree, for static paths: route handler; else OPTIONS branch
+   (WithAutoOptions) ; else 405 branch (WithNoMethod); else 404 *)
+Definition methods_at (s : cstate) (p : nat) : list nat :=
+  map (fun e => fst (fst e)) (filter (fun e => Nat.eqb (snd (fst e)) p) s).
+Definition serve (nm au : bool) (s : cstate) (m p : nat) : resp :=
+  match lookup (m, p) s with
+  | Some t => RServed t
+  | None =>
+      let al := filter (fun a => negb (Nat.eqb a m)) (methods_at s p) in
+      if Nat.eqb m optM && au then match al with [] => RNotFound | _ => ROptions al end
+      else if nm then match al with [] => RNotFound | _ => RNotAllowed al au end
+      else RNotFound
+  end.
+
+Definition req_model_agrees (nm au : bool) (pre : list cwop) (cycle : list (list cwop)) (m p : nat) (r : resp) : bool :=
+  cycle_closed pre cycle &&
+  existsb (fun s => resp_eqb (serve nm au s m p) r) (committed_states pre cycle).
+
+(* specification, written from the property text: what the answer SAYS about each route (a, p) --
+   Some true: registered, Some false: not registered, None: nothing -- must hold in one committed state *)
+Definition says (nm au : bool) (m : nat) (r : resp) (a : nat) : option bool :=
+  match r with
+  | RServed _ => if Nat.eqb a m then Some true else None
+  | RNotFound => if nm || (au && Nat.eqb m optM) || Nat.eqb a m then Some false else None
+  | RNotAllowed al _ => if Nat.eqb a m then Some false else Some (existsb (Nat.eqb a) al)
+  | ROptions al => if Nat.eqb a m then Some false else Some (existsb (Nat.eqb a) al)
+  | ROther => Some false
+  end.
+Definition well_formed_answer (nm au : bool) (m : nat) (r : resp) : bool :=
+  match r with
+  | RServed _ | RNotFound => true
+  | RNotAllowed al o => nm && negb (au && Nat.eqb m optM) && Bool.eqb o au && negb (Nat.eqb (List.length al) 0)
+  | ROptions al => au && Nat.eqb m optM && negb (Nat.eqb (List.length al) 0)
+  | ROther => false
+  end.
+Definition explained_by (nm au : bool) (s : cstate) (m p : nat) (r : resp) : bool :=
+  forallb (fun a => match says nm au m r a with
+                    | None => true
+                    | Some b => Bool.eqb b (match lookup (a, p) s with Some _ => true | None => false end)
+                    end) req_methods &&
+  match r with RServed t => opt_eqb N.eqb (lookup (m, p) s) (Some t) | _ => true end.
+Definition req_spec_ok (nm au : bool) (pre : list cwop) (cycle : list (list cwop)) (m p : nat) (r : resp) : bool :=
+  well_formed_answer nm au m r &&
+  existsb (fun s => explained_by nm au s m p r) (committed_states pre cycle).
+
+Inductive tcase :=
+| CHist (c : case)
+| CReq (nm au : bool) (pre : list cwop) (cycle : list (list cwop)) (m p : nat) (r : resp).
+
+Definition tmodel_agrees (c : tcase) : bool :=
+  match c with CHist c => model_agrees c | CReq nm au pre cy m p r => req_model_agrees nm au pre cy m p r end.
+Definition tspec_ok (c : tcase) : bool :=
+  match c with CHist c => spec_ok c | CReq nm au pre cy m p r => req_spec_ok nm au pre cy m p r end.
+
+Definition mismatches (cs : list tcase) : list nat := true_idx (map (fun c => negb (tmodel_agrees c)) cs).
+Definition spec_violations (cs : list tcase) : list nat := true_idx (map (fun c => negb (tspec_ok c)) cs).
+Definition fuel_outs (cs : list tcase) : list nat := [].   (* the model is structurally recursive: no fuel *)
